@@ -396,7 +396,7 @@ def check(ctx):
     _check_own(ctx)
     from .engine import import_rules
     # a record that overruns its slot, a misplaced free-slot remainder or a lost re-link make the files undecodable too
-    import_rules(ctx, "c06", {"free-slot-field-position", "no-lost-link-update", "large-pop-conservation", "writer-arms", "delete-pushes-slot", "class-slot", "large-threshold"})
+    import_rules(ctx, "c06", {"free-slot-field-position", "no-lost-link-update", "large-pop-conservation", "writer-arms", "delete-pushes-slot", "class-slot", "large-threshold", "tables"})
     import_rules(ctx, "c09", {"sizer-covers-writer", "slot-honoured", "vu64-reader-consumes-encoded-length"})
     import_rules(ctx, "c08", {"relink"})
     import_rules(ctx, "c01", {"op-wiring"})
